@@ -251,6 +251,14 @@ def expected (rows : Rows) (argv : List String) : Option String :=
 
 def bagOf (rows : Rows) : Bag := (addAllStop (newAlign 1) rows).1
 
+/-- what `trim name` works on: the alignment, or with `--unaligned` (default read from the regenerated flag table) the
+sequence bag `readsequences` builds; `none` = outside the modelled inputs (repeated names, empty sequences) -/
+def trimNameInput (rows : Rows) (fl : List String) : Option Bag := do
+  let un := flag fl "--unaligned" || (← effective "nameCmd" "unaligned") != "false"
+  if !un then pure (bagOf rows) else
+  if (rows.map Prod.fst).eraseDups.length != rows.length || rows.any (·.2.isEmpty) then none else
+  pure (addAllIgnore (newBag 1) rows)
+
 /-- the name map file written by `trim name -m` / read by `rename -m`: `old<TAB>new` per line (tab shown as a blank
 by the driver), sorted by the old name -/
 def nameMapText (m : List (String × String)) : String :=
@@ -426,10 +434,12 @@ def expected2 (rows : Rows) (argv : List String) : Option String :=
     | some (b, false) => some (ok (pairs b))
     | _ => some bad
   | "trim" :: "name" :: fl => do
-    -- cmd/name.go without --out-map: TrimNamesAuto (priority) or TrimNames(n)
-    if flag fl "-a" then some (ok (pairs (trimNamesAuto 1 (bagOf rows)).1)) else
+    -- cmd/name.go without --out-map: TrimNamesAuto (priority) or TrimNames(n); `--unaligned` reads plain sequences of
+    -- any lengths into a sequence bag (the generator gives distinct names) and writes them with the same FASTA writer
+    let b ← trimNameInput rows fl
+    if flag fl "-a" then some (ok (pairs (trimNamesAuto 1 b).1)) else
     let n ← parseInt? ((opt fl "-n").getD (← effective "nameCmd" "nb-char"))
-    let r := trimNames n (bagOf rows)
+    let r := trimNames n b
     some (if r.2 then bad else ok (pairs r.1))
   | "clean" :: "seqs" :: "-c" :: cut :: fl => do
     let (num, den) ← decFrac cut
@@ -569,12 +579,13 @@ def expectedF (rows : Rows) (files : List (String × String)) (argv : List Strin
   | "trim" :: "name" :: "-m" :: mf :: fl => do
     -- the alignment on stdout, the map (old name, new name) in the file
     let old := rows.map Prod.fst
+    let b0 ← trimNameInput rows fl
     if flag fl "-a" then
-      let b := (trimNamesAuto 1 (bagOf rows)).1
+      let b := (trimNamesAuto 1 b0).1
       some (okF (pairs b) (mf ++ "=" ++ nameMapText (old.zip ((pairs b).map Prod.fst))))
     else
       let n ← parseInt? ((opt fl "-n").getD (← effective "nameCmd" "nb-char"))
-      let r := trimNames n (bagOf rows)
+      let r := trimNames n b0
       if r.2 then some badF else some (okF (pairs r.1) (mf ++ "=" ++ nameMapText (old.zip ((pairs r.1).map Prod.fst))))
   | "rename" :: fl =>
     if flag fl "-e" || flag fl "--regexp" then do
